@@ -404,111 +404,51 @@ func TestC05(t *testing.T) {
 
 	// (2) history independence: stateful, model = memo of the first verdict per (DER, selection, config)
 	rapidRun(t, "histories", perShard(stats.Scale(300, 5000)), func(rt *rapid.T) {
-		g := lint.GlobalRegistry()
-		old := g.GetConfiguration()
-		defer g.SetConfiguration(old)
-		type key struct{ obj, reg, cfg int }
-		memo := map[key]map[string]model.Verdict{}
-		fresh := map[key]bool{}
-		var pool []engine.Case
+		var hc c05HistoryCase
 		for i, n := 0, rapid.IntRange(2, 5).Draw(rt, "nobj"); i < n; i++ {
-			pool = append(pool, drawObject(rt, 2, true))
+			hc.Pool = append(hc.Pool, drawObject(rt, 2, true))
 		}
 		// objects whose verdict depends on the configuration make leaks between runs visible
 		sens := sensitiveObjects()
-		cfgDocs := []string{""}
+		hc.CfgDocs = []string{""}
 		for _, ci := range engine.Configurables() {
 			if ss := sens[ci.Name]; len(ss) > 0 {
 				o := ss[rapid.IntRange(0, len(ss)-1).Draw(rt, "sens")]
-				pool = append(pool, engine.Case{Kind: o.Kind, DER: o.DER, Base: o.Name})
-				cfgDocs = append(cfgDocs, altDocs[ci.Name])
+				hc.Pool = append(hc.Pool, engine.Case{Kind: o.Kind, DER: o.DER, Base: o.Name})
+				hc.CfgDocs = append(hc.CfgDocs, altDocs[ci.Name])
 			}
 		}
-		g.SetConfiguration(lint.NewEmptyConfig())
-		regs := []lint.Registry{g}
-		regCfg := []int{0} // index into cfgDocs of the configuration each registry holds
-		regDesc := []string{"global"}
-		parsed := map[int]interface{}{}
-		var hist []string
-		touched := map[int]bool{}
+		h := newC05History(hc.Pool, hc.CfgDocs)
+		defer h.close()
 		rt.Repeat(map[string]func(*rapid.T){
 			"lint": func(rt *rapid.T) {
-				oi := rapid.IntRange(0, len(pool)-1).Draw(rt, "obj")
-				ri := rapid.IntRange(0, len(regs)-1).Draw(rt, "reg")
-				reuse := rapid.Bool().Draw(rt, "reuse-parsed")
-				c := pool[oi]
-				var obj interface{}
-				if reuse && parsed[oi] != nil {
-					obj = parsed[oi]
-				} else {
-					obj = parseOnly(c.Kind, c.DER)
-					if reflect.ValueOf(obj).IsNil() {
-						return
-					}
-					parsed[oi] = obj
-				}
-				var rs *zlint.ResultSet
-				switch o := obj.(type) {
-				case interface{}:
-					_ = o
-				}
-				rs = lintParsed(c.Kind, obj, regs[ri])
-				v := engine.Verdicts(rs)
-				k := key{oi, ri, regCfg[ri]}
-				touched[ri] = true
-				hist = append(hist, fmt.Sprintf("lint(obj%d,%s,cfg%d,reuse=%v)", oi, regDesc[ri], regCfg[ri], reuse))
-				if m, ok := memo[k]; ok {
-					for n, x := range m {
-						if v[n] != x {
-							fail(rt, rec, "c05-history", "history|"+n, fmt.Sprintf("after %v: %s now %s, first time %s", hist, n, v[n], x), map[string]interface{}{"history": hist, "lint": n})
-						}
-					}
-				} else {
-					memo[k] = v
-					fresh[k] = true
+				op := c05Op{Op: "lint", Obj: rapid.IntRange(0, len(hc.Pool)-1).Draw(rt, "obj"), Reg: rapid.IntRange(0, len(h.regs)-1).Draw(rt, "reg"), Reuse: rapid.Bool().Draw(rt, "reuse-parsed")}
+				if sig, msg := h.step(op); msg != "" {
+					hc.Ops = h.ops
+					fail(rt, rec, "c05-history", sig, msg, hc)
 				}
 			},
 			"filter": func(rt *rapid.T) {
-				if len(regs) >= 4 {
+				if len(h.regs) >= 4 {
 					rt.Skip("enough")
 				}
 				f := engine.DrawValidFilter(rt, globalNames())
-				o, err := f.Options()
-				if err != nil {
-					rt.Skip("bad filter")
-				}
-				r, err := g.Filter(o)
-				if err != nil {
-					rt.Skip("bad filter")
-				}
-				regs = append(regs, r)
-				regCfg = append(regCfg, regCfg[0]) // Filter copies the source registry's configuration
-				b, _ := json.Marshal(f)
-				regDesc = append(regDesc, "filtered:"+short(string(b), 60))
-				hist = append(hist, "filter")
+				h.step(c05Op{Op: "filter", Filter: &f})
 			},
 			"setConfiguration": func(rt *rapid.T) {
-				// another configuration (or an equal one again) is part of the history; the
-				// memo is keyed by the configuration a registry holds, so coming back to an
-				// earlier configuration must give the earlier verdicts
-				ri := rapid.IntRange(0, len(regs)-1).Draw(rt, "reg")
-				ci := rapid.IntRange(0, len(cfgDocs)-1).Draw(rt, "cfg")
-				cfg, err := lint.NewConfigFromString(cfgDocs[ci])
-				if err != nil {
-					rt.Skip("config does not parse")
-				}
-				regs[ri].SetConfiguration(cfg)
-				regCfg[ri] = ci
-				hist = append(hist, fmt.Sprintf("setConfig(%s,cfg%d)", regDesc[ri], ci))
+				// another configuration (or an equal one again) is part of the history; the memo is
+				// keyed by the configuration a registry holds, so coming back to an earlier
+				// configuration must give the earlier verdicts
+				h.step(c05Op{Op: "set", Reg: rapid.IntRange(0, len(h.regs)-1).Draw(rt, "reg"), Cfg: rapid.IntRange(0, len(hc.CfgDocs)-1).Draw(rt, "cfg")})
 			},
 		})
 		rec.Eval()
 		rec.Class("history")
-		if len(hist) >= 3 && len(touched) >= 2 {
-			rec.NT(stats.HashS(hist...))
+		if len(h.ops) >= 3 && len(h.touched) >= 2 {
+			rec.NT(stats.HashS(h.text()...))
 		}
-		if rec.WantSample() && len(hist) > 5 && len(touched) >= 2 {
-			rec.Sample(map[string]interface{}{"history": hist})
+		if rec.WantSample() && len(h.ops) > 5 && len(h.touched) >= 2 {
+			rec.Sample(map[string]interface{}{"history": h.text()})
 		}
 	})
 
@@ -706,6 +646,127 @@ func harvestEnvNames() []string {
 	return out
 }
 
+// ---- lint histories (replayable) -------------------------------------------------
+
+type c05Op struct {
+	Op     string             `json:"op"` // lint | filter | set
+	Obj    int                `json:"obj,omitempty"`
+	Reg    int                `json:"reg,omitempty"`
+	Reuse  bool               `json:"reuse_parsed,omitempty"`
+	Filter *engine.FilterSpec `json:"filter,omitempty"`
+	Cfg    int                `json:"cfg,omitempty"`
+}
+
+type c05HistoryCase struct {
+	Pool    []engine.Case `json:"pool"`
+	CfgDocs []string      `json:"cfg_docs"`
+	Ops     []c05Op       `json:"ops"`
+}
+
+type c05MemoKey struct{ obj, reg, cfg int }
+
+type c05History struct {
+	pool    []engine.Case
+	docs    []string
+	regs    []lint.Registry
+	regCfg  []int
+	desc    []string
+	parsed  map[int]interface{}
+	memo    map[c05MemoKey]map[string]model.Verdict
+	touched map[int]bool
+	ops     []c05Op
+	old     lint.Configuration
+}
+
+func newC05History(pool []engine.Case, docs []string) *c05History {
+	g := lint.GlobalRegistry()
+	h := &c05History{pool: pool, docs: docs, old: g.GetConfiguration(), parsed: map[int]interface{}{}, memo: map[c05MemoKey]map[string]model.Verdict{}, touched: map[int]bool{}}
+	g.SetConfiguration(lint.NewEmptyConfig())
+	h.regs, h.regCfg, h.desc = []lint.Registry{g}, []int{0}, []string{"global"}
+	return h
+}
+
+func (h *c05History) close() { lint.GlobalRegistry().SetConfiguration(h.old) }
+
+func (h *c05History) text() []string {
+	var out []string
+	for _, o := range h.ops {
+		switch o.Op {
+		case "lint":
+			out = append(out, fmt.Sprintf("lint(obj%d,reg%d,reuse=%v)", o.Obj, o.Reg, o.Reuse))
+		case "filter":
+			b, _ := json.Marshal(o.Filter)
+			out = append(out, "filter:"+short(string(b), 60))
+		default:
+			out = append(out, fmt.Sprintf("setConfig(reg%d,cfg%d)", o.Reg, o.Cfg))
+		}
+	}
+	return out
+}
+
+func (h *c05History) step(op c05Op) (string, string) {
+	switch op.Op {
+	case "filter":
+		o, err := op.Filter.Options()
+		if err != nil {
+			return "", ""
+		}
+		r, err := h.regs[0].Filter(o)
+		if err != nil {
+			return "", ""
+		}
+		h.regs = append(h.regs, r)
+		h.regCfg = append(h.regCfg, h.regCfg[0]) // Filter copies the source registry's configuration
+		h.desc = append(h.desc, "filtered")
+	case "set":
+		if op.Reg >= len(h.regs) || op.Cfg >= len(h.docs) {
+			return "", ""
+		}
+		cfg, err := lint.NewConfigFromString(h.docs[op.Cfg])
+		if err != nil {
+			return "", ""
+		}
+		h.regs[op.Reg].SetConfiguration(cfg)
+		h.regCfg[op.Reg] = op.Cfg
+	case "lint":
+		if op.Reg >= len(h.regs) || op.Obj >= len(h.pool) {
+			return "", ""
+		}
+		c := h.pool[op.Obj]
+		var obj interface{}
+		if op.Reuse && h.parsed[op.Obj] != nil {
+			obj = h.parsed[op.Obj]
+		} else {
+			obj = parseOnly(c.Kind, c.DER)
+			if reflect.ValueOf(obj).IsNil() {
+				return "", ""
+			}
+			h.parsed[op.Obj] = obj
+		}
+		h.ops = append(h.ops, op)
+		v := engine.Verdicts(lintParsed(c.Kind, obj, h.regs[op.Reg]))
+		k := c05MemoKey{op.Obj, op.Reg, h.regCfg[op.Reg]}
+		h.touched[op.Reg] = true
+		if m, ok := h.memo[k]; ok {
+			names := make([]string, 0, len(m))
+			for n := range m {
+				names = append(names, n)
+			}
+			sort.Strings(names)
+			for _, n := range names {
+				if v[n] != m[n] {
+					return "history|" + n, fmt.Sprintf("after %v: %s now %s, first time (same object, registry and configuration) %s", h.text(), n, v[n], m[n])
+				}
+			}
+		} else {
+			h.memo[k] = v
+		}
+		return "", ""
+	}
+	h.ops = append(h.ops, op)
+	return "", ""
+}
+
 func lintParsed(k gen.Kind, obj interface{}, reg lint.Registry) *zlint.ResultSet {
 	switch k {
 	case gen.Cert:
@@ -728,7 +789,61 @@ func init() {
 		}
 		return judgeC05Repeat(rec, c)
 	})
-	for _, o := range []string{"c05-history", "c05-env", "c05-io"} {
-		registerReplayer(o, func(rec *stats.Rec, raw json.RawMessage) (string, string) { return "", "" })
-	}
+	registerReplayer("c05-history", func(rec *stats.Rec, raw json.RawMessage) (string, string) {
+		var c c05HistoryCase
+		if err := json.Unmarshal(raw, &c); err != nil {
+			return "decode", err.Error()
+		}
+		h := newC05History(c.Pool, c.CfgDocs)
+		defer h.close()
+		for _, op := range c.Ops {
+			if sig, msg := h.step(op); msg != "" {
+				return sig, msg
+			}
+		}
+		return "", ""
+	})
+	registerReplayer("c05-env", func(rec *stats.Rec, raw json.RawMessage) (string, string) {
+		var c struct {
+			Label string       `json:"label"`
+			Env   []string     `json:"env"`
+			Cwd   string       `json:"cwd"`
+			Case  *engine.Case `json:"case"`
+		}
+		if err := json.Unmarshal(raw, &c); err != nil || c.Case == nil {
+			return "", ""
+		}
+		rs, _, ok := lintCase(*c.Case)
+		if !ok {
+			return "", ""
+		}
+		want := engine.Digest(rs)
+		dir, err := os.MkdirTemp("", "verif-c05r-")
+		if err != nil {
+			return "", ""
+		}
+		defer os.RemoveAll(dir)
+		bundle := filepath.Join(dir, "bundle.jsonl")
+		if engine.WriteBundle(bundle, []engine.BundleItem{{Case: *c.Case, ID: "o0"}}) != nil {
+			return "", ""
+		}
+		bin := "/verif/.build/oneshot"
+		if p := getenv("VERIF_ONESHOT"); p != "" {
+			bin = p
+		}
+		cwd := c.Cwd
+		if _, err := os.Stat(cwd); err != nil {
+			cwd = dir
+		}
+		dig, _, _, err := runOneshot(bin, bundle, c.Env, cwd)
+		if err != nil {
+			return "", ""
+		}
+		if dig["o0"] != want {
+			return "fresh-process|" + c.Label, fmt.Sprintf("digest in a fresh process %s differs from in-process digest %s", dig["o0"], want)
+		}
+		return "", ""
+	})
+	// c05-io: the system-call window is a property of a whole traced run; replaying means running the check
+	registerReplayer("c05-io", func(rec *stats.Rec, raw json.RawMessage) (string, string) { return "", "" })
 }
